@@ -17,6 +17,8 @@
       user <addr>                                               add_user_function (for later loads)
       load <base>                                               query: Elf at this base (last object)
       link                                                      query: ElfLinker on the first object
+      loadelf <name> <base>                                     a further call of the public `load_elf` on that
+                                                                linker (after a failed call: `skipped`)
 
   Answer: per-item answers joined by ` ; `: `ok` for a declaration; for `load`/`link`
 
@@ -141,7 +143,7 @@ def strLe (a b : String) : Bool := decide (a ≤ b)
 /-- `ElfLinker`'s own `function_entries`, `symbols`, `program_entry`: per loaded object in the order
     of the file names (a BTreeMap), concatenated. -/
 def linkAnswer (main : ElfDesc) (loaded : List (ElfDesc × Nat)) (img : Img) (withNames : Bool) : String :=
-  let byName := loaded.mergeSort (fun x y => strLe x.1.name y.1.name)
+  let byName := (latestByName loaded).mergeSort (fun x y => strLe x.1.name y.1.name)
   let fe : Res (List Entry) := byName.foldl (fun acc x => acc.bind (fun l => (entriesRes x.1 x.2 []).map (fun e => l ++ e))) (.ok [])
   let sy : Res (List Symbol) := byName.foldl (fun acc x => acc.bind (fun l => (symbolsRes x.1 x.2).map (fun e => l ++ e))) (.ok [])
   match arch main with
@@ -150,7 +152,10 @@ def linkAnswer (main : ElfDesc) (loaded : List (ElfDesc × Nat)) (img : Img) (wi
     ++ " mem=" ++ renderImage img (loaded.flatMap (fun x => loadRanges x.1 x.2))
     ++ " " ++ showEntriesRes withNames fe
     ++ " syms=" ++ showResS showSyms sy
-    ++ " pe=" ++ showResS toString (programEntryRes main 0)
+    ++ " pe=" ++ showResS toString
+        (match (latestByName loaded).find? (fun x => x.1.name == main.name) with
+         | some x => programEntryRes x.1 x.2       -- `loaded[main's file name].program_entry()`
+         | none => programEntryRes main 0)
   | .err e => toString e
   | .panic => "panic"
 
@@ -169,6 +174,8 @@ def linkDomain (loaded : List (ElfDesc × Nat)) : Bool :=
 structure St where
   objs : List ElfDesc := []      -- the last one is the object being described
   users : List Nat := []
+  linker : Option (ElfDesc × LinkState) := none    -- after `link`: the main object and the linker's state
+  dead : Bool := false                             -- a linker call failed: later calls answer `skipped`
 
 def St.updLast (st : St) (f : ElfDesc → ElfDesc) : Option St :=
   match st.objs.reverse with
@@ -255,17 +262,30 @@ def step (st : St) (item : String) : St × String × String :=
     | [] => bad
     | main :: _ =>
       match link st.objs main.name with
-      | .err e => (st, toString e, "?")
-      | .panic => (st, "panic", "?")
+      | .err e => ({ st with dead := true, linker := none }, toString e, "?")
+      | .panic => ({ st with dead := true, linker := none }, "panic", "?")
       | .ok ls =>
-        let m := linkAnswer main ls.loaded ls.mem true
+        let m := linkAnswer main ls.placed ls.mem true
         let s :=
-          if linkDomain ls.loaded then
-            match linkSpec ls.loaded (main.enc == .msb) with
-            | .ok img => linkAnswer main ls.loaded img false
+          if linkDomain ls.placed then
+            match linkSpec ls.placed (main.enc == .msb) with
+            | .ok img => linkAnswer main ls.placed img false
             | _ => "?"
           else "?"
-        (st, m, s)
+        ({ st with linker := some (main, ls), dead := false }, m, s)
+  | ["loadelf", name, b] =>
+    match b.toNat?, st.linker, st.dead with
+    | none, _, _ => bad
+    | some _, none, _ => (st, "skipped", "skipped")
+    | some _, some _, true => (st, "skipped", "skipped")
+    | some B, some (main, ls), false =>
+      match callLoad st.objs (main.enc == .msb) ls name B with
+      | .err e => ({ st with dead := true }, toString e, "?")
+      | .panic => ({ st with dead := true }, "panic", "?")
+      | .ok ls' =>
+        let m := linkAnswer main ls'.placed ls'.mem true
+        let s := if linkDomain ls'.placed then linkAnswer main ls'.placed ls'.mem false else "?"
+        ({ st with linker := some (main, ls') }, m, s)
   | _ => bad
 
 def handle (line : String) : String :=
